@@ -179,6 +179,33 @@ def handle(line):
         return "true" if uh.isvalid_checksum(unhx(t[1])) else "false"
     if op == "parse":
         return resdump(lambda: UBXReader.parse(unhx(t[4]), msgmode=int(t[1]), validate=int(t[2]), parsebitfield=t[3] == "1"))
+    if op in ("str", "pyl-str"):
+        # `str(m)` of the message the rest of the line denotes
+        sub = t[1:]
+        try:
+            if sub[0] == "parse":
+                m = UBXReader.parse(unhx(sub[4]), msgmode=int(sub[1]), validate=int(sub[2]), parsebitfield=sub[3] == "1")
+            elif sub[0] == "construct":
+                cls, mid, mode, bf, kind = unhx(sub[1]), unhx(sub[2]), int(sub[3]), sub[4] == "1", sub[5]
+                if kind == "E":
+                    m = UBXMessage(cls, mid, mode, parsebitfield=bf)
+                elif kind == "P":
+                    m = UBXMessage(cls, mid, mode, parsebitfield=bf, payload=unhx(sub[6]))
+                else:
+                    kw = {}
+                    for tok in sub[6:]:
+                        k, v = tok.split("=", 1)
+                        kw[kwname(k)] = parseval(v)
+                    m = UBXMessage(cls, mid, mode, parsebitfield=bf, **kw)
+            else:
+                return "bad-op"
+        except Exception:  # noqa
+            return "nomsg"
+        try:
+            str(m)
+            return "str=ok"
+        except Exception as e:  # noqa
+            return "str=" + excname(e)
     if op == "construct":
         cls, mid, mode, bf, kind = unhx(t[1]), unhx(t[2]), int(t[3]), t[4] == "1", t[5]
         if kind == "E":
